@@ -45,6 +45,9 @@ pub struct ProbeReq {
     pub cts: Vec<(Vec<u8>, Vec<u8>)>,
     /// named secrets that must be present before and absent after the drop
     pub needles: Vec<(String, Vec<u8>)>,
+    /// byte offset inside a larger arena at which the object is placed (types of alignment 1 only)
+    #[serde(default)]
+    pub offset: usize,
 }
 
 #[derive(Clone, Debug, Default)]
@@ -91,6 +94,32 @@ fn delta(a: Option<[(u64, u64, u64); 4]>, b: Option<[(u64, u64, u64); 4]>) -> Op
 
 /// Moves `v` into a fresh 0xAA-filled heap slot, lets `use_it` work on it in place, scans, drops in
 /// place, scans again.
+/// like slot_probe, but the object (alignment 1) sits at `offset` bytes into a 16-aligned arena
+fn arena_probe<T>(v: T, needles: &[(String, Vec<u8>)], offset: usize) -> ProbeOut {
+    assert_eq!(std::mem::align_of::<T>(), 1, "arena_probe is for byte-aligned types only");
+    let n = std::mem::size_of::<T>();
+    let mut arena: Vec<u128> = vec![0xAAAA_AAAA_AAAA_AAAA_AAAA_AAAA_AAAA_AAAAu128; (n + offset) / 16 + 2];
+    let base = arena.as_mut_ptr() as *mut u8;
+    // SAFETY: offset + n lies inside the arena; T has alignment 1
+    let obj = unsafe { base.add(offset) as *mut T };
+    unsafe { obj.write(v) };
+    let snap = || -> Vec<u8> { (0..n).map(|i| unsafe { std::ptr::read_volatile((obj as *const u8).add(i)) }).collect() };
+    let before = snap();
+    let l0 = ledger();
+    unsafe { std::ptr::drop_in_place(obj) };
+    let l1 = ledger();
+    let after = snap();
+    ProbeOut {
+        size: n,
+        before: needles.iter().map(|(k, v)| (k.clone(), find(&before, v))).collect(),
+        after: needles.iter().map(|(k, v)| (k.clone(), find(&after, v))).collect(),
+        wiped: needles.iter().map(|(k, v)| (k.clone(), find(&before, v).into_iter().filter(|&o| after[o..o + v.len()].iter().all(|b| *b == 0)).collect())).collect(),
+        ledger_setup: None,
+        ledger_drop: delta(l0, l1),
+        ops_done: 0,
+    }
+}
+
 fn slot_probe<T>(v: T, needles: &[(String, Vec<u8>)], use_it: impl FnOnce(&mut T) -> usize) -> ProbeOut {
     let n = std::mem::size_of::<T>();
     let mut slot: Box<MaybeUninit<T>> = Box::new(MaybeUninit::uninit());
@@ -230,6 +259,9 @@ pub fn drop_probe<A: AeadT, D: KdfT, K: KemT>(id: SuiteId, req: &ProbeReq) -> Re
             };
             let mut rng = ScriptRng::new(&req.ikm_e);
             let (ss, _enc) = K::encap(&pk_r, auth.as_ref().map(|(a, b)| (a, b)), &mut rng).map_err(|x| e("encap", x))?;
+            if req.offset > 0 {
+                return Ok(arena_probe(ss, &req.needles, req.offset));
+            }
             Ok(slot_probe(ss, &req.needles, |_| 0))
         }
         What::DecapSecret => {
@@ -241,6 +273,9 @@ pub fn drop_probe<A: AeadT, D: KdfT, K: KemT>(id: SuiteId, req: &ProbeReq) -> Re
                 None
             };
             let ss = K::decap(&sk_r, pk_s.as_ref(), &enc).map_err(|x| e("decap", x))?;
+            if req.offset > 0 {
+                return Ok(arena_probe(ss, &req.needles, req.offset));
+            }
             Ok(slot_probe(ss, &req.needles, |_| 0))
         }
     }
@@ -262,6 +297,10 @@ pub struct Case {
     /// stack temporary of the key schedule), 2 base nonce
     #[serde(default)]
     pub target: u8,
+    /// shared-secret probes: the object is dropped at this byte offset of a 16-aligned arena (a wipe written for
+    /// aligned words must also cope with an unaligned address)
+    #[serde(default)]
+    pub offset: usize,
 }
 
 fn shape_ok(w: u8, v: &[u8]) -> bool {
@@ -314,12 +353,24 @@ impl Part for C16 {
                 for what in [What::SenderCtx, What::ReceiverCtx] {
                     for ops in histories(cfg.tier.thorough()) {
                         tag += 1;
-                        v.push(Case { suite, mode, what: what.clone(), ops, tag, witness: 0, target: 0 });
+                        v.push(Case { suite, mode, what: what.clone(), ops, tag, witness: 0, target: 0, offset: 0 });
                     }
                 }
                 for what in [What::EncapSecret, What::DecapSecret] {
                     tag += 1;
-                    v.push(Case { suite, mode, what, ops: vec![], tag, witness: 0, target: 0 });
+                    v.push(Case { suite, mode, what, ops: vec![], tag, witness: 0, target: 0, offset: 0 });
+                }
+            }
+        }
+        // shared secrets dropped at every offset 1..=15 of a 16-aligned arena
+        for suite in all_suites() {
+            if suite.aead != crate::refmodel::Aead::ExportOnly || suite.kdf != suite.kem.kdf() {
+                continue;
+            }
+            for offset in 1..16usize {
+                for what in [What::EncapSecret, What::DecapSecret] {
+                    tag += 1;
+                    v.push(Case { suite, mode: if offset % 2 == 0 { Mode::Base } else { Mode::Auth }, what, ops: vec![], tag, witness: 0, target: 0, offset });
                 }
             }
         }
@@ -334,7 +385,7 @@ impl Part for C16 {
                     let targets: &[u8] = if matches!(what, What::SenderCtx | What::ReceiverCtx) { &[0, 1, 2] } else { &[0] };
                     for &target in targets {
                         tag += 1;
-                        v.push(Case { suite, mode, what: what.clone(), ops: vec![Op::Msg], tag, witness, target });
+                        v.push(Case { suite, mode, what: what.clone(), ops: vec![Op::Msg], tag, witness, target, offset: 0 });
                     }
                 }
             }
@@ -406,7 +457,7 @@ impl Part for C16 {
                 vec![("shared_secret".to_string(), ss)]
             }
         };
-        let req = ProbeReq { what: c.what.clone(), mode: m, sk_r: k.sk_r.clone(), pk_r: k.pk_r.clone(), enc, info, ikm_e: k.ikm_e.clone(), ops: c.ops.clone(), cts, needles: needles.clone() };
+        let req = ProbeReq { what: c.what.clone(), mode: m, sk_r: k.sk_r.clone(), pk_r: k.pk_r.clone(), enc, info, ikm_e: k.ikm_e.clone(), ops: c.ops.clone(), cts, needles: needles.clone(), offset: c.offset };
         let r = std::panic::catch_unwind(std::panic::AssertUnwindSafe(|| ops.drop_probe(&req)));
         let po = match r {
             Ok(Ok(p)) => p,
@@ -438,7 +489,12 @@ impl Part for C16 {
             // memory that *held* the secret: at least one place where it was must be all-zero now, and
             // if it was in exactly one place it must be gone altogether.
             let wiped = &po.wiped[i].1;
-            if !before.is_empty() && wiped.is_empty() {
+            // AES-GCM cipher state has padding that can carry stale stack copies along; ChaCha20Poly1305 and the
+            // export-only state have none, and neither has a bare shared secret: there the secret must be gone
+            let strict = !matches!(c.suite.aead, crate::refmodel::Aead::Aes128Gcm | crate::refmodel::Aead::Aes256Gcm) || matches!(c.what, What::EncapSecret | What::DecapSecret);
+            if strict && !after.is_empty() {
+                out.fail(format!("{} still present at offset(s) {:?} of the {:?} storage after drop (it was at {:?} before)", name, after, c.what, before));
+            } else if !before.is_empty() && wiped.is_empty() {
                 out.fail(format!("{} not wiped: present at offset(s) {:?} of the {:?} storage before the drop, at {:?} after it, and no former location is zeroed", name, before, c.what, after));
             } else if before.len() == 1 && !after.is_empty() {
                 out.fail(format!("{} still present at offset(s) {:?} of the {:?} storage after drop", name, after, c.what));
